@@ -734,6 +734,29 @@ def check_volume_3d(ctx: Ctx):
     fv = view(m, fi)
     site = fi.qualname
     calls = [c for c in fv.calls() if (fv.callee(c) or "").endswith("dblquad")]
+    if not calls:
+        # no quadrature: a closed form.  The exact volume ∫ r(θ,φ)³ sinθ/3 is a *cubic* form in the amplitudes (the triple
+        # products ∫ Y_a Y_b Y_c do not vanish, e.g. l = 2, m = 0 alone); an expression that reads the amplitudes only
+        # through their squares is the second-order approximation, not the volume
+        quad = [c for c in fv.calls(nested=True) if (fv.callee(c) or U(c.func)).split(".")[-1] in ("quad", "nquad", "tplquad", "dblquad", "simpson", "trapezoid", "trapz", "romberg", "fixed_quad", "quadrature", "interface_distance")]
+        amp_uses = [n for n in ast.walk(fi.node) if isinstance(n, ast.Attribute) and U(n) == "self.amplitudes"]
+        if not quad and amp_uses:
+            par = {}
+            for n in ast.walk(fi.node):
+                for ch in ast.iter_child_nodes(n):
+                    par[id(ch)] = n
+            only_squares = True
+            for a in amp_uses:
+                p = par.get(id(a))
+                sq = isinstance(p, ast.BinOp) and isinstance(p.op, ast.Pow) and p.left is a and U(p.right) == "2"
+                dot = isinstance(p, ast.Call) and (U(p.func).split(".")[-1] in ("dot", "vdot", "inner")) and all(U(x) == "self.amplitudes" for x in p.args)
+                if not (sq or dot):
+                    only_squares = False
+            if only_squares:
+                ctx.violate("INTEGRAL", site, (fi, amp_uses[0]), "the volume is a closed form that reads the amplitudes only through their squares and uses no quadrature of interface_distance: that is the "
+                            "second-order approximation; the integral of r³ sinθ/3 over the body also has cubic terms (∫Y_a Y_b Y_c ≠ 0, e.g. for the mode l = 2, m = 0), so the value is not the volume of the body")
+                ctx.violate("INTEGRAL", site + ":integrand", (fi, amp_uses[0]), "no integrand: see above")
+                return
     if len(calls) != 1 or len(calls[0].args) < 5:
         ctx.undecided("INTEGRAL", site, fi, "no dblquad(f, a, b, g, h) call")
         return
